@@ -20,6 +20,8 @@ def op_str(o, fn):
             if c.get("unsafe"):
                 s += " #unsafe"
             return s
+        if "static" in c:
+            return "static %s: %s" % (c["static"], c["ty"])
         return "const %s: %s" % (c.get("v", c.get("s")), c["ty"])
     return str(o)
 
@@ -60,7 +62,7 @@ def dump_fn(fn, out=sys.stdout):
     for i, l in enumerate(fn.locals):
         w("    let _%d: %s%s\n" % (i, l[0], ("  // " + l[1]) if l[1] else ""))
     for c in fn.captures:
-        w("    capture %s: %s by %s\n" % tuple(c))
+        w("    capture %s: %s by %s freeze=%s\n" % tuple(c))
     for b, blk in enumerate(fn.blocks):
         w("  bb%d%s:\n" % (b, " (cleanup)" if blk[2] else ""))
         for st in blk[0]:
